@@ -281,9 +281,9 @@ def run(ctx):
             a, b = e.args[0], e.args[2]
             guard = None
             for c in p.conds():
-                t = c.term
-                if isinstance(t, tuple) and t[0] == "binop" and t[1] in ("Ne", "Eq") and {strip_refs(t[2]), strip_refs(t[3])} == {strip_refs(a), strip_refs(b)}:
-                    guard = (c.fact == ("eq", True)) == (t[1] == "Ne")
+                iq = inequality_fact(c)       # a != b on values or through references
+                if iq is not None and {iq[0], iq[1]} == {deval(a), deval(b)}:
+                    guard = iq[2]
             okg = guard is True
             # loop range
             nx = [c for c in p.conds() if c.term[0] == "discr" and is_call(c.term[1], "::next") and c.fact == ("eq", 1)]
